@@ -415,6 +415,15 @@ func (c *wsConnection) subscribe(start time.Time, msg *message) {
 
 	ctx, cancel := context.WithCancel(ctx)
 	c.mu.Lock()
+	if _, dup := c.active[msg.id]; dup {
+		// graphql-transport-ws: "4409: Subscriber for <id> already exists"; starting a second
+		// operation under a running id would leave the first one unreachable for stop and close
+		c.mu.Unlock()
+		cancel()
+		c.sendConnectionError("subscriber for %s already exists", msg.id)
+		c.close(4409, "subscriber already exists")
+		return
+	}
 	c.active[msg.id] = cancel
 	c.mu.Unlock()
 
